@@ -308,3 +308,131 @@ func TestC11_INP(t *testing.T) {
 		return c.Phase >= 4 || c.InFlight != "none", cl
 	}, runC11)
 }
+
+// ---- BIN: the same endings against the real binary; gauges and goroutines are read from /metrics ----
+
+func TestC11_BIN(t *testing.T) {
+	runProp(t, "C11_BIN", func(t *rapid.T) c11Case {
+		c := genC11(t)
+		c.Stalled, c.DupIn = false, false
+		if strings.HasSuffix(c.Ending, "-out") {
+			c.Ending = "fin" // the open finding about dropped RDG_OUT_DATA connections is probed in-process
+		}
+		return c
+	}, func(c c11Case) (bool, []string) {
+		return c.Phase >= 4 || c.InFlight != "none", []string{"kind=" + c.Kind, fmt.Sprintf("phase=%d", c.Phase), "ending=" + c.Ending, "inflight=" + c.InFlight}
+	}, func(c c11Case) *Violation {
+		o := resolveHosts(c.Opts)
+		in, tgt, err := binFor(o, W().User)
+		if err != nil {
+			return viol("bin/start", "%v", err)
+		}
+		w := W()
+		metric := func(name string) float64 {
+			m, err := in.Metrics()
+			if err != nil {
+				return -1
+			}
+			return m[name]
+		}
+		// quiescent baseline (earlier cases of this process have ended)
+		waitFor(func() bool { return metric("rdpgw_websocket_connections") == 0 && metric("rdpgw_legacy_connections") == 0 })
+		baseG := metric("go_goroutines")
+		snap := w.snap()
+		defer w.observe(snap, 0)
+		conn, err := gwc.Dial(c.Kind, tgt, sess.NewConnID())
+		if err != nil {
+			return viol("c11/open", "transport did not open: %v", err)
+		}
+		defer conn.Close()
+		cookie := "none"
+		if o.TokenAuth {
+			cookie = "valid:A"
+		}
+		steps := []PktSpec{{K: "hs", Caps: o.serverCaps()}, {K: "tc", Cookie: cookie}, {K: "ta"}, {K: "cc", Host: "A"}, {K: "data", Payload: []byte("first data")}}
+		units, _ := render(histCfg{Opts: o, Kind: c.Kind}, steps[:c.Phase], "127.0.0.1")
+		for _, u := range units {
+			conn.Send(u)
+		}
+		wantResp := c.Phase
+		if wantResp > 4 {
+			wantResp = 4
+		}
+		if !waitFor(func() bool { return countPackets(conn) >= wantResp }) {
+			return viol("c11/setup", "set-up got %d of %d responses", countPackets(conn), wantResp)
+		}
+		var host *backend.Conn
+		if c.Phase >= 4 {
+			if host = w.L["A"].WaitAccept(snap["A"]+1, releaseBound); host == nil {
+				return viol("c11/setup", "no backend connection after channel creation")
+			}
+		}
+		during := metric("rdpgw_websocket_connections") + metric("rdpgw_legacy_connections")
+		if during < 1 && c.Phase >= 1 { // a response was received, so the handler is past its gauge increment
+			return viol("c11/gauge-not-raised", "no connection gauge counts the live tunnel (%v)", during)
+		}
+		stop := make(chan struct{})
+		defer close(stop)
+		if host != nil && (c.InFlight == "host" || c.InFlight == "both") {
+			go func() {
+				chunk := streamBytes(7, 0, 3000)
+				for {
+					select {
+					case <-stop:
+						return
+					default:
+					}
+					if host.Write(chunk) != nil {
+						return
+					}
+				}
+			}()
+			waitFor(func() bool { return len(conn.Stream()) > 20000 })
+		}
+		if c.InFlight == "client" || c.InFlight == "both" {
+			for i := 0; i < 5; i++ {
+				conn.Send(tsgu.Data(streamBytes(9, i*2000, 2000)))
+			}
+		}
+		switch c.Ending {
+		case "close":
+			conn.Send(tsgu.CloseChannel())
+		case "out-of-order":
+			if c.Phase == 0 {
+				conn.Send(tsgu.TunnelAuth("x"))
+			} else {
+				conn.Send(tsgu.Handshake(0, 0, 0, o.serverCaps()))
+			}
+		case "unframeable":
+			conn.Send(append(tsgu.Header(tsgu.PktData, 3), 1, 2, 3, 4))
+		case "fin", "rst":
+			switch cc := conn.(type) {
+			case *gwc.WS:
+				if c.Ending == "rst" {
+					cc.Reset()
+				} else {
+					cc.Close()
+				}
+			case *gwc.Legacy:
+				cc.CloseIn(c.Ending == "rst")
+			}
+		}
+		desc := fmt.Sprintf("real binary, %s, ended in phase %d by %s with %s traffic in flight", c.Kind, c.Phase, c.Ending, c.InFlight)
+		if host != nil && !host.WaitEOF(releaseBound) {
+			return viol("c11/backend-not-closed/"+c.Ending, "the connection to the remote desktop host is still open %v after the tunnel ended (%s)", releaseBound, desc)
+		}
+		if c.Ending != "fin" && c.Ending != "rst" || c.Kind == "legacy" {
+			if !conn.WaitEOF(releaseBound) {
+				return viol("c11/client-conn-not-closed/"+c.Kind, "a client-facing connection is still open %v after the tunnel ended (%s)", releaseBound, desc)
+			}
+		}
+		conn.Close()
+		if !waitFor(func() bool { return metric("rdpgw_websocket_connections") == 0 && metric("rdpgw_legacy_connections") == 0 }) {
+			return viol("c11/gauge/not-restored", "connection gauges not restored: websocket %v legacy %v (%s)", metric("rdpgw_websocket_connections"), metric("rdpgw_legacy_connections"), desc)
+		}
+		if !waitFor(func() bool { return metric("go_goroutines") <= baseG+1 }) {
+			return viol("c11/goroutine-leak", "go_goroutines is %v, was %v before the tunnel (%s)", metric("go_goroutines"), baseG, desc)
+		}
+		return binHealthQuick(in)
+	})
+}
